@@ -1,5 +1,5 @@
 import string
-from typing import Union
+from typing import Any, Union
 
 from flamapy.core.models.ast import ASTOperation, Node
 from flamapy.core.transformations import ModelToText
@@ -99,12 +99,7 @@ class UVLWriter(ModelToText):
         for attribute in feature.get_attributes():
             attribute_str = safename(attribute.name)
             if attribute.default_value is not None:
-                if isinstance(attribute.default_value, str):
-                    attribute_str += f" '{attribute.default_value}'"
-                elif isinstance(attribute.default_value, bool):
-                    attribute_str += f" {str(attribute.default_value).lower()}"
-                else:
-                    attribute_str += f" {attribute.default_value}"
+                attribute_str += f" {serialize_value(attribute.default_value)}"
             attributes.append(attribute_str)
         return f'{{{", ".join(attributes)}}}' if attributes else ""
 
@@ -165,6 +160,21 @@ class UVLWriter(ModelToText):
     def _serialize_operand(node: Node) -> str:
         result = UVLWriter._serialize_node(node)
         return f'({result})' if node.is_op() and node.is_binary_op() else result
+
+
+def serialize_value(value: Any) -> str:
+    """UVL syntax of an attribute value (including the elements of vectors and nested maps)."""
+    if isinstance(value, str):
+        return f"'{value}'"
+    if isinstance(value, bool):
+        return str(value).lower()
+    if isinstance(value, list):
+        return '[' + ', '.join(serialize_value(v) for v in value) + ']'
+    if isinstance(value, dict):
+        items = [safename(str(k)) if v is None else f'{safename(str(k))} {serialize_value(v)}'
+                 for k, v in value.items()]
+        return '{' + ', '.join(items) + '}'
+    return str(value)
 
 
 def safename(name: str) -> str:
